@@ -1,19 +1,8 @@
 #!/bin/bash
 # usage: benign_eval.sh <dir> <ID> [props, default all]
-# Applies every behaviour-preserving refactoring <dir>/<ID>-r*.diff to /repo in turn, runs the quick checks, restores /repo.
-# Every line "ALARM" is a false alarm of the machinery (the refactorings keep the property).  Modifies /repo while running.
-DIR=$1; ID=$2; PROPS=${3:-all}
-cd /verif
-for p in $DIR/$ID-r*.diff; do
-  n=$(basename $p .diff)
-  git -C /repo apply $p 2>/dev/null || { echo "$n: patch does not apply"; continue; }
-  if [ "$PROPS" = "all" ]; then out=$(./check all 2>&1); else out=""; for q in $PROPS; do out="$out
-$(./check $q 2>&1)"; done; fi
-  git -C /repo checkout -- .
-  fired=$(echo "$out" | grep -E "new=[1-9]|BUILD" | awk '{print $1}' | tr '\n' ' ')
-  if [ -z "$fired" ]; then echo "$n: quiet"; else
-    echo "$n: ALARM $fired"
-    echo "$out" | grep -E "^\s+\[(violation|anchor-missing|undecided)\]" | cut -c1-400
-  fi
-done
+# Evaluates every behaviour-preserving refactoring <dir>/<ID>-r*.diff on a scratch worktree of /repo (eval_patch.sh).
+# Every line "FIRED" is a false alarm of the machinery (the refactorings keep the property).  Never modifies /repo:
+# a check run against a patched /repo would rewrite /verif/evidence and /verif/replays from that tree.
+DIR=$(realpath $1); ID=$2; PROPS=${3:-all}
+for p in $DIR/$ID-r*.diff; do /verif/tools/eval_patch.sh "$p" "$PROPS"; done
 git -C /repo status --short | head -3
